@@ -388,6 +388,71 @@ def ctx_reset_on_all_paths(b, aid, field, ty, neutral):
     return all(f in ("entry", neutral) for f in finals)
 
 
+def reaches_propagation(bd, start_local):
+    """forward, flow-insensitive taint from `start_local`: does the value (or something computed from it) reach a
+    `?` (Try::branch) or the return place of this body?"""
+    from vlib.mir import rvalue_operands
+    tainted = {start_local}
+    changed = True
+    while changed:
+        changed = False
+        for _, _, s in bd.all_stmts():
+            if s[0] != "=":
+                continue
+            srcs = []
+            for o in rvalue_operands(s[2]):
+                p = op_place(o)
+                if p is not None:
+                    srcs.append(p[0])
+            if s[2][0] in ("ref", "disc"):
+                srcs.append(s[2][2][0] if s[2][0] == "ref" else s[2][1][0])
+            if any(x in tainted for x in srcs) and s[1][0] not in tainted:
+                tainted.add(s[1][0])
+                changed = True
+        for c in bd.calls():
+            if any(op_place(a) is not None and op_place(a)[0] in tainted for a in c.args) and c.dest[0] not in tainted:
+                tainted.add(c.dest[0])
+                changed = True
+    if 0 in tainted:
+        return True
+    for c in bd.calls():
+        if "Try>::branch" in (c.callee or "") and any(op_place(a) is not None and op_place(a)[0] in tainted for a in c.args):
+            return True
+    return False
+
+
+def rule_propagate(ctx, rep):
+    r = rep.rule("R-C02-propagate", "the default traversal drops no error: in every T::recurse_visit the Result of each visit_* call on a child is "
+                                    "propagated (`?`) or returned, including children behind Option / Vec / Box", floor=250, floor_what="child visits in recurse_visit bodies")
+    n = 0
+    for fid, b in sorted(ctx.prog.bodies.items()):
+        fn = norm(fid)
+        if not (fn.endswith("::recurse_visit") and b.f["crate"] == "ironplc_dsl"):
+            continue
+        bodies = [b] + [cb for cb in ctx.prog.bodies.values() if cb.f.get("parent") == b.id]
+        cnt = {}
+        for bd in bodies:
+            for c in bd.calls():
+                if not (c.u or "").startswith("ironplc_dsl::visitor::Visitor::visit_"):
+                    continue
+                n += 1
+                m = c.u.split("::")[-1]
+                k = cnt[m] = cnt.get(m, 0) + 1
+                inst = "%s|%s#%d" % (fn.replace("ironplc_dsl::", ""), m, k)
+                ok = reaches_propagation(bd, c.dest[0])
+                if ok and bd is not b:
+                    # the closure returns the Result to an adapter (map / map_or_else ...): the parent must propagate what comes out
+                    ok = False
+                    for _, _, s in b.all_stmts():
+                        if s[0] == "=" and s[2][0] == "agg" and s[2][1].get("k") == "closure" and norm(s[2][1]["def"]) == norm(bd.id):
+                            ok = reaches_propagation(b, s[1][0])
+                if ok:
+                    r.ok(inst, "%s:%d" % (b.f["file"], b.f["line"]))
+                else:
+                    r.finding(inst + "|dropped", "%s:%d" % (b.f["file"], b.f["line"]), "the Result of visiting this child is not propagated: an error found below it (e.g. by a rule) is silently discarded")
+    r.note("%d child visits examined" % n)
+
+
 def run(ctx, rep):
     rep.not_decided += ["that each rule's predicate is the documented one (value-level)", "acceptance of all valid programs",
                         "single/double-fault behaviour on generated programs"]
@@ -397,3 +462,4 @@ def run(ctx, rep):
     rule_code(ctx, rep)
     rule_reach(ctx, rep)
     rule_scope(ctx, rep)
+    rule_propagate(ctx, rep)
